@@ -77,7 +77,12 @@ class JsonTypestate:
                 if a.arg in ('self', 'cls'):
                     continue
                 t = strip_opt(self.prog.ann_to_type(fn.module, a.annotation, fn.cls))
-                if t[0] in ('dict', 'list', 'any'):
+                if t[0] in ('dict', 'list', 'any') and fn.name.startswith('_') and not fn.name.startswith('__') and \
+                        self.cg.callers(fn):
+                    # a private helper is only ever called from this package: the state of its parameters is what the call
+                    # sites pass (joined over all of them by _summarise)
+                    self.param_state[(fn.fq, a.arg)] = None
+                elif t[0] in ('dict', 'list', 'any'):
                     self.param_state[(fn.fq, a.arg)] = U          # annotation is a wish, not a check
                 elif t[0] in ('str', 'int', 'bool'):
                     # trusted only if every internal call site passes a value in that state (computed in _summarise);
@@ -270,6 +275,12 @@ class JsonTypestate:
             if isinstance(f, ast.Attribute) and f.attr in ('get', 'pop', 'setdefault', 'copy') and \
                     self.state(fn, f.value, f.value, depth + 1) is not None:
                 return U       # an element (or the default) taken out of a decoded JSON container: a JSON value again
+            if isinstance(f, ast.Name) and f.id in ('iter', 'list', 'tuple', 'reversed') and len(e.args) == 1 and \
+                    prog.resolve_name(fn.module, f.id) is None:
+                st0 = self.state(fn, e.args[0], e.args[0], depth + 1)
+                if st0 in (L, D):
+                    return L       # the same (unchecked) elements, one by one
+                return U if st0 is not None else None
             return None
         if isinstance(e, ast.IfExp):
             return join(self.state(fn, e.body, e.body, depth + 1), self.state(fn, e.orelse, e.orelse, depth + 1))
@@ -314,7 +325,8 @@ class JsonTypestate:
             for c in env.resolve_call(n):
                 if isinstance(c, tuple) and c[0] == 'ctor':
                     cls: ClassInfo = c[1]
-                    if cls.is_dataclass and self.prog.lookup_method(cls, '__init__') is None:
+                    if (cls.is_dataclass or any(str(b).split('.')[-1] == 'NamedTuple' for b in cls.bases)) and \
+                            self.prog.lookup_method(cls, '__init__') is None:
                         names = list(self.prog.class_fields(cls).keys())
                         pairs = [(names[i], a) for i, a in enumerate(n.args) if i < len(names)] + \
                                 [(k.arg, k.value) for k in n.keywords if k.arg]
@@ -416,8 +428,9 @@ class JsonTypestate:
                         ' which validates its argument' if ok else ' which uses it without validation'))
                 elif fname in ('len', 'int', 'float', 'sorted', 'list', 'set', 'tuple', 'dict', 'sum', 'min', 'max',
                                'any', 'all', 'enumerate', 'zip', 'iter', 'next', 'reversed', 'abs', 'hash'):
-                    ok = (fname == 'len' and st in (D, L, S)) or (fname in ('sorted', 'list', 'set', 'tuple', 'any',
-                          'all', 'enumerate', 'iter', 'reversed', 'sum', 'min', 'max') and st == L and False)
+                    # walking a checked container cannot fail; ordering / hashing / adding its (unchecked) elements can
+                    ok = (fname == 'len' and st in (D, L, S)) or \
+                        (fname in ('list', 'tuple', 'any', 'all', 'enumerate', 'iter', 'reversed') and st in (L, D))
                     rec(p, 'builtin', st, ok, f'{fname}() applied to `{txt}`' + ('' if ok else ' of unchecked type'))
                 elif isinstance(f, ast.Attribute) and f.value is not n:
                     # argument of a method of a non-JSON object (e.g. list.append(value)): storing
